@@ -1,8 +1,1089 @@
-//! C14 — not implemented yet (stub).
-use crate::engine::Opts;
-pub fn main(_opts: &Opts) -> i32 {
-    eprintln!("C14: check not implemented");
-    2
+//! C14 — ORDER BY sorts by a consistent order that respects SPARQL's `<`.
+//!
+//! Generated: multisets of solution rows (1-3 key columns) mixing every term kind and value class,
+//! loaded into `Vec`-backed datasets in several input permutations, queried through `SparqlWrapper`
+//! with 1-3 ASC/DESC keys.  Oracle: exact-arithmetic reference relation per key (see `key_rel`).
+use crate::engine::*;
+use crate::model::*;
+use crate::stores::*;
+use proptest::prelude::*;
+use serde::{Deserialize, Serialize};
+use serde_json::{json, Value};
+use sophia_api::dataset::Dataset;
+use sophia_api::sparql::{SparqlDataset, SparqlResult};
+use sophia_sparql::{SparqlWrapper, SparqlWrapperError};
+use std::cmp::Ordering;
+use std::collections::{BTreeMap, BTreeSet};
+
+// ====================================================================== running a query
+
+#[derive(Clone, Debug)]
+pub enum Outcome {
+    Rows { vars: Vec<String>, rows: Vec<Vec<Option<MT>>> },
+    Bool(bool),
+    NotImpl(String),
+    OtherErr(String),
+    Panic(String),
+}
+
+/// Run a query (text) through `SparqlWrapper(&dataset)`, observing panics.
+pub fn run_query<D: Dataset>(d: &D, text: &str) -> Outcome {
+    let r = catch(|| {
+        let w = SparqlWrapper(d);
+        match w.query(text) {
+            Err(SparqlWrapperError::NotImplemented(s)) => Outcome::NotImpl(s.to_string()),
+            Err(e) => Outcome::OtherErr(format!("{e}")),
+            Ok(SparqlResult::Boolean(b)) => Outcome::Bool(b),
+            Ok(SparqlResult::Triples(_)) => Outcome::OtherErr("triples result".into()),
+            Ok(SparqlResult::Bindings(b)) => {
+                let vars: Vec<String> = b.variables().iter().map(|s| s.to_string()).collect();
+                let mut rows = vec![];
+                for row in b {
+                    match row {
+                        Ok(r) => rows.push(r.into_iter().map(|o| o.map(|t| MT::from_term(sophia_api::term::Term::borrow_term(&t)))).collect()),
+                        Err(SparqlWrapperError::NotImplemented(s)) => return Outcome::NotImpl(s.to_string()),
+                        Err(e) => return Outcome::OtherErr(format!("row error: {e}")),
+                    }
+                }
+                Outcome::Rows { vars, rows }
+            }
+        }
+    });
+    match r {
+        Ok(o) => o,
+        Err(p) => Outcome::Panic(p),
+    }
+}
+
+// ====================================================================== exact numbers
+
+/// Exact finite decimal: sign + integer digits (no leading zeros) + fraction digits (no trailing zeros).
+#[derive(Clone, Debug, PartialEq, Eq)]
+pub struct Dec {
+    pub neg: bool,
+    pub int: Vec<u8>,
+    pub frac: Vec<u8>,
+}
+impl Dec {
+    pub fn parse(s: &str) -> Option<Dec> {
+        // [+-]? digits [. digits]   (at least one digit overall)
+        let (neg, rest) = match s.as_bytes().first()? {
+            b'+' => (false, &s[1..]),
+            b'-' => (true, &s[1..]),
+            _ => (false, s),
+        };
+        let (i, f) = match rest.split_once('.') {
+            Some((i, f)) => (i, f),
+            None => (rest, ""),
+        };
+        if i.is_empty() && f.is_empty() {
+            return None;
+        }
+        if !i.bytes().all(|b| b.is_ascii_digit()) || !f.bytes().all(|b| b.is_ascii_digit()) {
+            return None;
+        }
+        let int: Vec<u8> = i.bytes().skip_while(|b| *b == b'0').collect();
+        let mut frac: Vec<u8> = f.bytes().collect();
+        while frac.last() == Some(&b'0') {
+            frac.pop();
+        }
+        let zero = int.is_empty() && frac.is_empty();
+        Some(Dec { neg: neg && !zero, int, frac })
+    }
+    pub fn from_f64(v: f64) -> Option<Dec> {
+        if !v.is_finite() {
+            return None;
+        }
+        // Rust prints the exact decimal expansion when asked for enough digits
+        Dec::parse(&format!("{:.1100}", v))
+    }
+    pub fn is_zero(&self) -> bool {
+        self.int.is_empty() && self.frac.is_empty()
+    }
+    fn cmp_mag(&self, o: &Dec) -> Ordering {
+        self.int
+            .len()
+            .cmp(&o.int.len())
+            .then_with(|| self.int.cmp(&o.int))
+            .then_with(|| self.frac.cmp(&o.frac)) // lexicographic on digits = numeric on fractions (no trailing zeros)
+    }
+    pub fn cmp(&self, o: &Dec) -> Ordering {
+        match (self.neg, o.neg) {
+            (false, true) => Ordering::Greater,
+            (true, false) => Ordering::Less,
+            (false, false) => self.cmp_mag(o),
+            (true, true) => o.cmp_mag(self),
+        }
+    }
+    pub fn to_plain(&self) -> String {
+        let mut s = String::new();
+        if self.neg {
+            s.push('-');
+        }
+        if self.int.is_empty() {
+            s.push('0');
+        } else {
+            s.push_str(std::str::from_utf8(&self.int).unwrap());
+        }
+        if !self.frac.is_empty() {
+            s.push('.');
+            s.push_str(std::str::from_utf8(&self.frac).unwrap());
+        }
+        s
+    }
+    pub fn is_integer(&self) -> bool {
+        self.frac.is_empty()
+    }
+}
+
+#[derive(Clone, Copy, Debug, PartialEq, Eq, PartialOrd, Ord)]
+pub enum NumTy {
+    Exact, // integer family and decimal
+    Float,
+    Double,
+}
+#[derive(Clone, Debug, PartialEq)]
+pub enum NumVal {
+    Fin(Dec),
+    PosInf,
+    NegInf,
+    NaN,
+}
+#[derive(Clone, Debug)]
+pub struct Num {
+    pub ty: NumTy,
+    pub val: NumVal,
+    /// value as f64 for float/double types (exact), None for exact types
+    pub f: Option<f64>,
+}
+
+/// How the harness judges a lexical form for a datatype.
+#[derive(Clone, Debug)]
+pub enum Parsed<T> {
+    Valid(T),
+    /// certainly not in the lexical space
+    Invalid,
+    /// corner of the lexical space the harness does not want to judge
+    Uncertain,
+}
+
+fn int_lexical(lex: &str) -> bool {
+    let b = lex.strip_prefix(['+', '-']).unwrap_or(lex);
+    !b.is_empty() && b.bytes().all(|c| c.is_ascii_digit())
+}
+fn dec_lexical(lex: &str) -> bool {
+    let b = lex.strip_prefix(['+', '-']).unwrap_or(lex);
+    let (i, f) = match b.split_once('.') {
+        Some((i, f)) => (i, Some(f)),
+        None => (b, None),
+    };
+    let d = |s: &str| s.bytes().all(|c| c.is_ascii_digit());
+    match f {
+        None => !i.is_empty() && d(i),
+        Some(f) => d(i) && d(f) && !(i.is_empty() && f.is_empty()),
+    }
+}
+fn in_range(v: &Dec, lo: Option<&str>, hi: Option<&str>) -> bool {
+    lo.map(|l| v.cmp(&Dec::parse(l).unwrap()) != Ordering::Less).unwrap_or(true)
+        && hi.map(|h| v.cmp(&Dec::parse(h).unwrap()) != Ordering::Greater).unwrap_or(true)
+}
+
+/// Lexical-to-value mapping for the numeric XSD datatypes (local name), from XSD 1.1 part 2.
+pub fn parse_numeric(dt_local: &str, lex: &str) -> Option<Parsed<Num>> {
+    let exact = |v: Dec| Parsed::Valid(Num { ty: NumTy::Exact, val: NumVal::Fin(v), f: None });
+    let ranged = |lo: Option<&str>, hi: Option<&str>, unsigned: bool| -> Parsed<Num> {
+        if !int_lexical(lex) {
+            return Parsed::Invalid;
+        }
+        if unsigned && (lex.starts_with('+') || lex.starts_with('-')) {
+            return Parsed::Uncertain; // XSD 1.0 vs 1.1 differ on a sign for unsigned types
+        }
+        let v = Dec::parse(lex).unwrap();
+        if in_range(&v, lo, hi) {
+            exact(v)
+        } else {
+            Parsed::Invalid
+        }
+    };
+    Some(match dt_local {
+        "integer" => ranged(None, None, false),
+        "long" => ranged(Some("-9223372036854775808"), Some("9223372036854775807"), false),
+        "int" => ranged(Some("-2147483648"), Some("2147483647"), false),
+        "short" => ranged(Some("-32768"), Some("32767"), false),
+        "byte" => ranged(Some("-128"), Some("127"), false),
+        "nonNegativeInteger" => ranged(Some("0"), None, false),
+        "positiveInteger" => ranged(Some("1"), None, false),
+        "nonPositiveInteger" => ranged(None, Some("0"), false),
+        "negativeInteger" => ranged(None, Some("-1"), false),
+        "unsignedLong" => ranged(Some("0"), Some("18446744073709551615"), true),
+        "unsignedInt" => ranged(Some("0"), Some("4294967295"), true),
+        "unsignedShort" => ranged(Some("0"), Some("65535"), true),
+        "unsignedByte" => ranged(Some("0"), Some("255"), true),
+        "decimal" => {
+            if dec_lexical(lex) {
+                exact(Dec::parse(lex).unwrap())
+            } else {
+                Parsed::Invalid
+            }
+        }
+        "double" | "float" => {
+            let ty = if dt_local == "double" { NumTy::Double } else { NumTy::Float };
+            let mk = |val: NumVal, f: f64| Parsed::Valid(Num { ty, val, f: Some(f) });
+            match lex {
+                "INF" => mk(NumVal::PosInf, f64::INFINITY),
+                "-INF" => mk(NumVal::NegInf, f64::NEG_INFINITY),
+                "NaN" => mk(NumVal::NaN, f64::NAN),
+                "+INF" => Parsed::Uncertain,
+                _ => {
+                    // mantissa [eE] exponent
+                    let (m, e) = match lex.split_once(['e', 'E']) {
+                        Some((m, e)) => (m, Some(e)),
+                        None => (lex, None),
+                    };
+                    let ok = dec_lexical(m) && e.map(int_lexical).unwrap_or(true);
+                    if !ok {
+                        Parsed::Invalid
+                    } else {
+                        let f: f64 = if ty == NumTy::Double {
+                            lex.parse::<f64>().unwrap()
+                        } else {
+                            lex.parse::<f32>().unwrap() as f64
+                        };
+                        if f == f64::INFINITY {
+                            mk(NumVal::PosInf, f)
+                        } else if f == f64::NEG_INFINITY {
+                            mk(NumVal::NegInf, f)
+                        } else {
+                            mk(NumVal::Fin(Dec::from_f64(f).unwrap()), f)
+                        }
+                    }
+                }
+            }
+        }
+        _ => return None,
+    })
+}
+
+#[derive(Clone, Copy, Debug, PartialEq, Eq)]
+pub enum Rel {
+    Less,
+    Greater,
+    Tie,
+    /// the reference does not constrain this pair
+    Unknown,
+}
+impl Rel {
+    pub fn from_ord(o: Ordering) -> Rel {
+        match o {
+            Ordering::Less => Rel::Less,
+            Ordering::Greater => Rel::Greater,
+            Ordering::Equal => Rel::Tie,
+        }
+    }
+    pub fn rev(self) -> Rel {
+        match self {
+            Rel::Less => Rel::Greater,
+            Rel::Greater => Rel::Less,
+            x => x,
+        }
+    }
+}
+
+/// Round an exact value to the float type `ty` (as the XPath numeric promotion does).
+fn promote(d: &Dec, ty: NumTy) -> f64 {
+    let s = d.to_plain();
+    match ty {
+        NumTy::Float => s.parse::<f32>().unwrap() as f64,
+        _ => s.parse::<f64>().unwrap(),
+    }
+}
+
+/// Reference relation between two *valid* numeric values: strict only when exact arithmetic and
+/// the XPath promoted comparison agree, Tie only when exactly equal, Unknown for NaN and for the
+/// pairs that exact arithmetic separates but promotion to float/double does not.
+pub fn num_rel(a: &Num, b: &Num) -> Rel {
+    use NumVal::*;
+    let exact = match (&a.val, &b.val) {
+        (NaN, _) | (_, NaN) => return Rel::Unknown,
+        (PosInf, PosInf) | (NegInf, NegInf) => Ordering::Equal,
+        (NegInf, _) | (_, PosInf) => Ordering::Less,
+        (_, NegInf) | (PosInf, _) => Ordering::Greater,
+        (Fin(x), Fin(y)) => x.cmp(y),
+    };
+    if exact == Ordering::Equal {
+        return Rel::Tie;
+    }
+    // promoted comparison
+    let ty = a.ty.max(b.ty);
+    if ty == NumTy::Exact {
+        return Rel::from_ord(exact);
+    }
+    let pf = |n: &Num| -> f64 {
+        match (&n.val, n.f) {
+            (_, Some(f)) => f, // float -> double widening is exact
+            (Fin(d), None) => promote(d, ty),
+            _ => unreachable!(),
+        }
+    };
+    // a double compared with a float: the float is widened (exact); a float is never narrowed
+    let (fa, fb) = (pf(a), pf(b));
+    match fa.partial_cmp(&fb) {
+        Some(o) if o == exact => Rel::from_ord(exact),
+        _ => Rel::Unknown,
+    }
+}
+
+// ====================================================================== dateTime
+
+/// (nanoseconds since 0001-01-01T00:00:00 read as UTC, has timezone)
+pub fn parse_datetime(lex: &str) -> Parsed<(i128, bool)> {
+    let b = lex.as_bytes();
+    let dig = |r: std::ops::Range<usize>| -> Option<i128> {
+        let s = lex.get(r)?;
+        if !s.is_empty() && s.bytes().all(|c| c.is_ascii_digit()) {
+            s.parse().ok()
+        } else {
+            None
+        }
+    };
+    // YYYY-MM-DDThh:mm:ss
+    if b.len() < 19 {
+        return Parsed::Invalid;
+    }
+    if b[0] == b'-' || b[0] == b'+' {
+        return if b[0] == b'-' { Parsed::Uncertain } else { Parsed::Invalid };
+    }
+    let shape = b[4] == b'-' && b[7] == b'-' && b[10] == b'T' && b[13] == b':' && b[16] == b':';
+    if !shape {
+        // could be a year with more than 4 digits
+        return if b.iter().take_while(|c| c.is_ascii_digit()).count() > 4 { Parsed::Uncertain } else { Parsed::Invalid };
+    }
+    let (Some(y), Some(mo), Some(d), Some(h), Some(mi), Some(s)) =
+        (dig(0..4), dig(5..7), dig(8..10), dig(11..13), dig(14..16), dig(17..19))
+    else {
+        return Parsed::Invalid;
+    };
+    let mut pos = 19;
+    let mut nanos: i128 = 0;
+    if b.get(pos) == Some(&b'.') {
+        let start = pos + 1;
+        let mut end = start;
+        while end < b.len() && b[end].is_ascii_digit() {
+            end += 1;
+        }
+        if end == start {
+            return Parsed::Invalid;
+        }
+        if end - start > 9 {
+            return Parsed::Uncertain; // sub-nanosecond precision
+        }
+        let frac = &lex[start..end];
+        nanos = frac.parse::<i128>().unwrap() * 10i128.pow(9 - frac.len() as u32);
+        pos = end;
+    }
+    let tz = &lex[pos..];
+    let off_min: Option<i128> = if tz.is_empty() {
+        None
+    } else if tz == "Z" {
+        Some(0)
+    } else {
+        let tb = tz.as_bytes();
+        if tb.len() != 6 || (tb[0] != b'+' && tb[0] != b'-') || tb[3] != b':' {
+            return Parsed::Invalid;
+        }
+        let (Some(hh), Some(mm)) = (dig(pos + 1..pos + 3), dig(pos + 4..pos + 6)) else {
+            return Parsed::Invalid;
+        };
+        if mm > 59 || hh > 14 || (hh == 14 && mm != 0) {
+            return Parsed::Invalid;
+        }
+        Some(if tb[0] == b'-' { -(hh * 60 + mm) } else { hh * 60 + mm })
+    };
+    if y == 0 {
+        return Parsed::Uncertain;
+    }
+    if !(1..=12).contains(&mo) || d < 1 || mi > 59 {
+        return Parsed::Invalid;
+    }
+    let leap = (y % 4 == 0 && y % 100 != 0) || y % 400 == 0;
+    let dim = [31, if leap { 29 } else { 28 }, 31, 30, 31, 30, 31, 31, 30, 31, 30, 31][(mo - 1) as usize];
+    if d > dim {
+        return Parsed::Invalid;
+    }
+    if h == 24 {
+        return if mi == 0 && s == 0 && nanos == 0 { Parsed::Uncertain } else { Parsed::Invalid };
+    }
+    if h > 23 {
+        return Parsed::Invalid;
+    }
+    if s > 59 {
+        return if s == 60 { Parsed::Uncertain } else { Parsed::Invalid };
+    }
+    // days from civil (Howard Hinnant)
+    let yy = if mo <= 2 { y - 1 } else { y };
+    let era = yy.div_euclid(400);
+    let yoe = yy - era * 400;
+    let mp = (mo + 9) % 12;
+    let doy = (153 * mp + 2) / 5 + d - 1;
+    let doe = yoe * 365 + yoe / 4 - yoe / 100 + doy;
+    let days = era * 146097 + doe;
+    let secs = days * 86400 + h * 3600 + mi * 60 + s - off_min.unwrap_or(0) * 60;
+    Parsed::Valid((secs * 1_000_000_000 + nanos, off_min.is_some()))
+}
+
+// ====================================================================== value classes
+
+#[derive(Clone, Debug)]
+pub enum VClass {
+    Unbound,
+    Bnode,
+    Iri,
+    Triple,
+    Num(Num),
+    Str(String),
+    Bool(bool),
+    DateTime(i128, bool),
+    /// literal that the reference `<` does not order against anything
+    /// (ill-typed, language-tagged, unknown datatype, uncertain lexical corner)
+    OtherLit(&'static str),
+}
+
+pub fn classify(v: &Option<MT>) -> VClass {
+    match v {
+        None => VClass::Unbound,
+        Some(MT::Bnode(_)) => VClass::Bnode,
+        Some(MT::Iri(_)) => VClass::Iri,
+        Some(MT::Triple(_)) | Some(MT::Var(_)) => VClass::Triple,
+        Some(MT::Lang(..)) => VClass::OtherLit("lang"),
+        Some(MT::Lit(lex, dt)) => {
+            let Some(local) = dt.strip_prefix(XSD) else {
+                return VClass::OtherLit("unknown-dt");
+            };
+            match local {
+                "string" => VClass::Str(lex.clone()),
+                "boolean" => match lex.as_str() {
+                    "true" | "1" => VClass::Bool(true),
+                    "false" | "0" => VClass::Bool(false),
+                    _ => VClass::OtherLit("ill-typed-boolean"),
+                },
+                "dateTime" => match parse_datetime(lex) {
+                    Parsed::Valid((n, tz)) => VClass::DateTime(n, tz),
+                    Parsed::Invalid => VClass::OtherLit("ill-typed-dateTime"),
+                    Parsed::Uncertain => VClass::OtherLit("uncertain-dateTime"),
+                },
+                _ => match parse_numeric(local, lex) {
+                    Some(Parsed::Valid(n)) => VClass::Num(n),
+                    Some(Parsed::Invalid) => VClass::OtherLit("ill-typed-numeric"),
+                    Some(Parsed::Uncertain) => VClass::OtherLit("uncertain-numeric"),
+                    None => VClass::OtherLit("unknown-dt"),
+                },
+            }
+        }
+    }
+}
+
+fn rank(c: &VClass) -> u8 {
+    match c {
+        VClass::Unbound => 0,
+        VClass::Bnode => 1,
+        VClass::Iri => 2,
+        VClass::Triple => 9,
+        _ => 3,
+    }
+}
+
+pub fn class_label(c: &VClass) -> String {
+    match c {
+        VClass::Unbound => "unbound".into(),
+        VClass::Bnode => "bnode".into(),
+        VClass::Iri => "iri".into(),
+        VClass::Triple => "triple".into(),
+        VClass::Num(n) => match (&n.val, n.ty) {
+            (NumVal::NaN, _) => "num-NaN".into(),
+            (NumVal::PosInf | NumVal::NegInf, _) => "num-INF".into(),
+            (_, NumTy::Exact) => "num-exact".into(),
+            (_, NumTy::Float) => "num-float".into(),
+            (_, NumTy::Double) => "num-double".into(),
+        },
+        VClass::Str(_) => "string".into(),
+        VClass::Bool(_) => "boolean".into(),
+        VClass::DateTime(_, true) => "dateTime-tz".into(),
+        VClass::DateTime(_, false) => "dateTime-naive".into(),
+        VClass::OtherLit(k) => format!("lit-{k}"),
+    }
+}
+
+const H14: i128 = 14 * 3600 * 1_000_000_000;
+
+/// Reference relation on one ascending key. Grounded in the property statement:
+/// unbound < blank < IRI < literal; values that `<` can compare in `<` order; Tie when the two
+/// values are the same term or compare equal; anything else unconstrained.
+pub fn key_rel(a: &Option<MT>, b: &Option<MT>) -> Rel {
+    let (ca, cb) = (classify(a), classify(b));
+    let (ra, rb) = (rank(&ca), rank(&cb));
+    if ra == 9 || rb == 9 {
+        return if same_term(a, b) { Rel::Tie } else { Rel::Unknown };
+    }
+    if ra != rb {
+        return Rel::from_ord(ra.cmp(&rb));
+    }
+    if same_term(a, b) {
+        return Rel::Tie;
+    }
+    match (&ca, &cb) {
+        (VClass::Num(x), VClass::Num(y)) => num_rel(x, y),
+        (VClass::Str(x), VClass::Str(y)) => Rel::from_ord(x.as_str().cmp(y.as_str())),
+        (VClass::Bool(x), VClass::Bool(y)) => Rel::from_ord(x.cmp(y)),
+        (VClass::DateTime(x, tx), VClass::DateTime(y, ty)) => {
+            if tx == ty {
+                Rel::from_ord(x.cmp(y))
+            } else if (x - y).abs() > H14 {
+                // determinate whatever the (implicit) timezone of the zone-less value is
+                Rel::from_ord(x.cmp(y))
+            } else {
+                Rel::Unknown
+            }
+        }
+        _ => Rel::Unknown,
+    }
+}
+
+fn same_term(a: &Option<MT>, b: &Option<MT>) -> bool {
+    match (a, b) {
+        (None, None) => true,
+        (Some(x), Some(y)) => x.same_repr(y),
+        _ => false,
+    }
+}
+
+// ====================================================================== the case
+
+#[derive(Clone, Debug, Serialize, Deserialize)]
+pub struct Case {
+    /// one palette of candidate values per key column (None = unbound)
+    pub palettes: Vec<Vec<Option<MT>>>,
+    /// each row: one palette index per column (taken modulo the palette length)
+    pub rows: Vec<Vec<u8>>,
+    /// ORDER BY keys: (column, descending)
+    pub keys: Vec<(u8, bool)>,
+    /// swap list describing the third input permutation
+    pub perm: Vec<usize>,
+}
+
+pub struct C14;
+
+fn lit(l: &str, local: &str) -> Option<MT> {
+    Some(MT::lit(l, xsd(local)))
+}
+
+fn value_pool() -> Vec<(u32, Vec<Option<MT>>)> {
+    let mut nums = vec![];
+    for l in ["0", "1", "2", "10", "-1", "007", "+3", "-0", "9007199254740991", "9007199254740992", "9007199254740993", "123456789012345678901234567890", "-123456789012345678901234567890"] {
+        nums.push(lit(l, "integer"));
+    }
+    for l in ["0.0", "1.0", "1.5", "2.50", "10.00", "0.1", "-2.5", "2", "123456789012345678901234567890.123456789", "9007199254740992.5", "1.", ".5", "+1.5"] {
+        nums.push(lit(l, "decimal"));
+    }
+    for l in ["0", "-0.0", "1.0e0", "1", "2", "1e1", "1.5E0", "0.1", "-2.5e0", "9007199254740992", "9007199254740993", "1e30", "1.0E-3", "4.9e-324", "1e400"] {
+        nums.push(lit(l, "double"));
+    }
+    for l in ["1", "2.5", "16777217", "0.1", "-1e0", "1e10"] {
+        nums.push(lit(l, "float"));
+    }
+    for (dt, ls) in [
+        ("long", vec!["1", "-5", "9223372036854775807"]),
+        ("int", vec!["2", "-2147483648"]),
+        ("short", vec!["10", "-3"]),
+        ("byte", vec!["3", "5", "-128", "127"]),
+        ("nonNegativeInteger", vec!["0", "7"]),
+        ("positiveInteger", vec!["1", "4"]),
+        ("nonPositiveInteger", vec!["0", "-4"]),
+        ("negativeInteger", vec!["-1", "-10"]),
+        ("unsignedLong", vec!["18446744073709551615", "2"]),
+        ("unsignedInt", vec!["4294967295", "8"]),
+        ("unsignedShort", vec!["65535", "6"]),
+        ("unsignedByte", vec!["255", "0", "9"]),
+    ] {
+        for l in ls {
+            nums.push(lit(l, dt));
+        }
+    }
+    let special = vec![
+        lit("NaN", "double"),
+        lit("INF", "double"),
+        lit("-INF", "double"),
+        lit("NaN", "float"),
+        lit("INF", "float"),
+        lit("-INF", "float"),
+    ];
+    let ill = vec![
+        lit("1x", "integer"),
+        lit("abc", "double"),
+        lit("", "decimal"),
+        lit("1.5", "integer"),
+        lit("300", "byte"),
+        lit("-1", "unsignedInt"),
+        lit("0", "positiveInteger"),
+        lit("1e3", "decimal"),
+        lit("+INF", "double"),
+        lit("+5", "unsignedByte"),
+        lit(" 1", "integer"),
+        lit("TRUE", "boolean"),
+        lit("foo", "boolean"),
+        lit("2020-13-01T00:00:00Z", "dateTime"),
+        lit("yesterday", "dateTime"),
+        lit("2020-01-01T24:00:00Z", "dateTime"),
+    ];
+    let strings: Vec<Option<MT>> = ["", "a", "b", "B", "aa", "é", "10", "2", "z"].iter().map(|s| Some(MT::string(*s))).collect();
+    let langs = vec![
+        Some(MT::lang("a", "en")),
+        Some(MT::lang("b", "en")),
+        Some(MT::lang("a", "fr")),
+        Some(MT::lang("a", "EN")),
+        Some(MT::lang("10", "en")),
+    ];
+    let bools = vec![lit("true", "boolean"), lit("false", "boolean"), lit("1", "boolean"), lit("0", "boolean")];
+    let dts: Vec<Option<MT>> = [
+        "2020-01-01T00:00:00Z",
+        "2020-01-01T01:00:00+02:00",
+        "2020-01-01T00:00:00.5Z",
+        "2019-12-31T23:59:59-05:00",
+        "2020-01-01T13:00:00+05:00",
+        "2020-01-01T12:00:00Z",
+        "2020-01-01T12:30:00",
+        "2020-01-01T00:00:00",
+        "2021-06-01T12:00:00",
+        "1999-02-28T23:59:59.999",
+        "2024-02-29T10:00:00Z",
+        "1000-01-01T00:00:00Z",
+    ]
+    .iter()
+    .map(|s| lit(s, "dateTime"))
+    .collect();
+    let other = vec![
+        Some(MT::lit("a", "http://x/dt")),
+        Some(MT::lit("b", "http://x/dt")),
+        Some(MT::lit("1", "http://x/dt")),
+        lit("2020-01-01", "date"),
+        Some(MT::lit("<a/>", rdf("XMLLiteral"))),
+    ];
+    let iris: Vec<Option<MT>> = ["http://x/a", "http://x/b", "http://x/B", "urn:x:y", "http://www.w3.org/2001/XMLSchema#integer"]
+        .iter()
+        .map(|s| Some(MT::iri(*s)))
+        .collect();
+    let bnodes: Vec<Option<MT>> = ["b1", "b2", "a"].iter().map(|s| Some(MT::bn(*s))).collect();
+    vec![
+        (12, nums),
+        (3, special),
+        (5, ill),
+        (4, strings),
+        (2, langs),
+        (3, bools),
+        (4, dts),
+        (2, other),
+        (2, iris),
+        (2, bnodes),
+        (2, vec![None]),
+    ]
+}
+
+fn value() -> BoxedStrategy<Option<MT>> {
+    let opts: Vec<(u32, BoxedStrategy<Option<MT>>)> = value_pool().into_iter().map(|(w, v)| (w, pick(v))).collect();
+    proptest::strategy::Union::new_weighted(opts).boxed()
+}
+
+const NS: &str = "http://x/";
+
+impl Case {
+    pub fn ncols(&self) -> usize {
+        self.palettes.len().clamp(1, 3)
+    }
+    pub fn row_values(&self) -> Vec<Vec<Option<MT>>> {
+        let k = self.ncols();
+        self.rows
+            .iter()
+            .map(|r| {
+                (0..k)
+                    .map(|c| {
+                        let p = &self.palettes[c];
+                        if p.is_empty() {
+                            None
+                        } else {
+                            p[*r.get(c).unwrap_or(&0) as usize % p.len()].clone()
+                        }
+                    })
+                    .collect()
+            })
+            .collect()
+    }
+    fn keys(&self) -> Vec<(usize, bool)> {
+        let k = self.ncols();
+        let mut ks: Vec<(usize, bool)> = self.keys.iter().take(3).map(|(c, d)| (*c as usize % k, *d)).collect();
+        if ks.is_empty() {
+            ks.push((0, false));
+        }
+        ks
+    }
+    /// quads + query text
+    pub fn build(&self) -> (Vec<MQ>, String) {
+        let rows = self.row_values();
+        let k = self.ncols();
+        let mut quads = vec![];
+        let mut masks: BTreeSet<u8> = BTreeSet::new();
+        for (i, r) in rows.iter().enumerate() {
+            let s = MT::iri(format!("{NS}r{i}"));
+            let mut mask = 0u8;
+            for (c, v) in r.iter().enumerate() {
+                match v {
+                    None => mask |= 1 << c,
+                    Some(v) => quads.push(MQ::new(s.clone(), MT::iri(format!("{NS}k{c}")), v.clone(), None)),
+                }
+            }
+            masks.insert(mask);
+            quads.push(MQ::new(s, MT::iri(format!("{NS}mask")), MT::string(format!("m{mask}")), None));
+        }
+        let branches: Vec<String> = masks
+            .iter()
+            .map(|m| {
+                let mut b = format!("{{ ?r <{NS}mask> \"m{m}\" .");
+                for c in 0..k {
+                    if m & (1 << c) == 0 {
+                        b.push_str(&format!(" ?r <{NS}k{c}> ?v{c} ."));
+                    }
+                }
+                b.push_str(" }");
+                b
+            })
+            .collect();
+        let vars: Vec<String> = (0..k).map(|c| format!("?v{c}")).collect();
+        let order: Vec<String> = self
+            .keys()
+            .iter()
+            .map(|(c, d)| if *d { format!("DESC(?v{c})") } else { format!("ASC(?v{c})") })
+            .collect();
+        let body = if branches.len() == 1 { branches[0].clone() } else { format!("{{ {} }}", branches.join(" UNION ")) };
+        let q = format!("SELECT ?r {} WHERE {} ORDER BY {}", vars.join(" "), body, order.join(" "));
+        (quads, q)
+    }
+}
+
+/// relation between two rows under the key list (DESC reverses a key's value relation; a rank
+/// difference under DESC is left unconstrained, see assumptions)
+fn tuple_rel(a: &[Option<MT>], b: &[Option<MT>], keys: &[(usize, bool)]) -> (Rel, usize) {
+    for (i, (c, desc)) in keys.iter().enumerate() {
+        let r = key_rel(&a[*c], &b[*c]);
+        let r = if *desc {
+            let (ra, rb) = (rank(&classify(&a[*c])), rank(&classify(&b[*c])));
+            if ra != rb {
+                Rel::Unknown
+            } else {
+                r.rev()
+            }
+        } else {
+            r
+        };
+        match r {
+            Rel::Tie => continue,
+            other => return (other, i),
+        }
+    }
+    (Rel::Tie, keys.len())
+}
+
+fn is_lit(v: &Option<MT>) -> bool {
+    matches!(v, Some(MT::Lit(..)) | Some(MT::Lang(..)))
+}
+fn b10(v: &Option<MT>) -> bool {
+    matches!(v, Some(MT::Lit(l, d)) if d == &xsd("boolean") && (l == "1" || l == "0"))
+}
+
+/// Which root cause can explain a mis-ordering in column `col`? (trigger-keyed, from the input only)
+/// * some literal of the column is not ordered by the reference against another literal (different value
+///   class, ill-typed, NaN, zone-less vs zoned dateTime...): the engine mixes value order and term order
+/// * only numerics, but of exact and floating types: lossy promotion makes `=` intransitive
+fn column_trigger(rows: &[Vec<Option<MT>>], col: usize) -> &'static str {
+    let lits: Vec<&Option<MT>> = rows.iter().map(|r| &r[col]).filter(|v| is_lit(v)).collect();
+    let mut unknown_pair = false;
+    let mut unknown_non_numeric = false;
+    for (i, a) in lits.iter().enumerate() {
+        for b in &lits[i + 1..] {
+            if key_rel(a, b) == Rel::Unknown {
+                unknown_pair = true;
+                let fin = |v: &Option<MT>| matches!(classify(v), VClass::Num(n) if n.val != NumVal::NaN);
+                if !(fin(a) && fin(b)) {
+                    unknown_non_numeric = true;
+                }
+            }
+        }
+    }
+    if unknown_non_numeric {
+        "order/comparator-cycle-with-incomparable-literal"
+    } else if unknown_pair {
+        "order/numeric-promotion-intransitive"
+    } else {
+        ""
+    }
+}
+
+fn show_v(v: &Option<MT>) -> String {
+    v.as_ref().map(MT::show).unwrap_or_else(|| "UNBOUND".into())
+}
+
+/// trigger-keyed signature for two rows `ra`, `rb` mis-ordered on key number `ki`
+fn pair_signature(ra: &[Option<MT>], rb: &[Option<MT>], rows: &[Vec<Option<MT>>], keys: &[(usize, bool)], ki: usize) -> String {
+    // valid xsd:boolean lexical forms "1"/"0" anywhere in the keys compared so far
+    for (c, _) in &keys[..=ki] {
+        if b10(&ra[*c]) || b10(&rb[*c]) {
+            return "order/boolean-lexical-1-0".into();
+        }
+    }
+    for (c, _) in &keys[..=ki] {
+        let t = column_trigger(rows, *c);
+        if !t.is_empty() {
+            return t.into();
+        }
+    }
+    let col = keys[ki].0;
+    let (la, lb) = (class_label(&classify(&ra[col])), class_label(&classify(&rb[col])));
+    let (x, y) = if la <= lb { (la, lb) } else { (lb, la) };
+    format!("order/misordered/{x}-vs-{y}")
+}
+
+fn global_signature(rows: &[Vec<Option<MT>>], keys: &[(usize, bool)], fallback: String) -> String {
+    if rows.iter().any(|r| keys.iter().any(|(c, _)| b10(&r[*c]))) {
+        return "order/boolean-lexical-1-0".into();
+    }
+    for (c, _) in keys {
+        let t = column_trigger(rows, *c);
+        if !t.is_empty() {
+            return t.into();
+        }
+    }
+    fallback
+}
+
+impl Check for C14 {
+    type Case = Case;
+    const ID: &'static str = "C14";
+    fn rule() -> String {
+        "rows (2-12, sometimes 21-48) x 1-3 key columns drawn from per-column palettes over every term kind / numeric XSD type / NaN, INF, -0.0, 2^53+-1, 30-digit values / ill-typed / plain+tagged strings / booleans / dateTimes with and without zone / unknown datatypes / unbound (UNION branch), 1-3 ASC/DESC keys, each loaded into Vec<Spog> in 3 input permutations and queried through SparqlWrapper. Oracle: no panic, output is a permutation of the rows, every pair ordered by the exact-arithmetic reference relation appears in that order, and the union of the 'appears before' relations over the permutations never puts two strictly ordered rows in one cycle. Non-trivial = >=3 distinct key tuples from >=2 value classes; distinct by hash of the case.".into()
+    }
+    fn assumptions() -> Vec<String> {
+        vec![
+            "a pair is constrained only if both exact arithmetic and the XPath promoted (float/double) comparison order it strictly; equal values (1 vs 1.0) are ties broken by later keys; NaN, ill-typed, language-tagged and unknown-datatype literals are unconstrained unless they are the same term".into(),
+            "dateTimes with and without timezone are constrained only when more than 14 h apart".into(),
+            "under DESC, pairs of different kinds (unbound/blank/IRI/literal) are left unconstrained (the statement can be read either way)".into(),
+            "quoted triples are not generated as key values (the statement does not place them)".into(),
+        ]
+    }
+    fn cases(tier: Tier) -> u32 {
+        tier.pick(24_000, 900_000)
+    }
+    fn strategy(_tier: Tier) -> BoxedStrategy<Case> {
+        let palette = prop::collection::vec(value(), 1..=7);
+        let n = prop_oneof![7 => 2usize..=12, 3 => 21usize..=48];
+        (prop::collection::vec(palette, 1..=3), n)
+            .prop_flat_map(|(palettes, n)| {
+                let k = palettes.len();
+                (
+                    Just(palettes),
+                    prop::collection::vec(prop::collection::vec(0u8..7, k..=k), n..=n),
+                    prop::collection::vec((0u8..3, prop::bool::weighted(0.35)), 1..=3),
+                    prop::collection::vec(0usize..64, 0..24),
+                )
+            })
+            .prop_map(|(palettes, rows, keys, perm)| Case { palettes, rows, keys, perm })
+            .boxed()
+    }
+    fn show(case: &Case) -> Value {
+        let (_, q) = case.build();
+        json!({
+            "query": q,
+            "rows": case.row_values().iter().map(|r| r.iter().map(show_v).collect::<Vec<_>>().join(" | ")).collect::<Vec<_>>(),
+        })
+    }
+    fn run(case: &Case, ctx: &mut Ctx) {
+        let rows = case.row_values();
+        let keys = case.keys();
+        let (quads, query) = case.build();
+        let n = rows.len();
+        // classes
+        let mut classes: BTreeSet<String> = BTreeSet::new();
+        let mut tuples: BTreeSet<String> = BTreeSet::new();
+        for r in &rows {
+            let mut t = String::new();
+            for (c, _) in &keys {
+                classes.insert(class_label(&classify(&r[*c])));
+                t.push_str(&show_v(&r[*c]));
+                t.push('|');
+            }
+            tuples.insert(t);
+        }
+        for c in &classes {
+            ctx.class(format!("has:{c}"));
+        }
+        ctx.class(format!("keys:{}", keys.len()));
+        if keys.iter().any(|k| k.1) {
+            ctx.class("has:DESC");
+        }
+        ctx.class(if n > 20 { "rows:21+" } else { "rows:2-12" });
+        if tuples.len() >= 3 && classes.len() >= 2 {
+            ctx.nontrivial();
+        }
+        // how many pairs does the reference constrain?
+        let mut strict_pairs = 0u64;
+        for i in 0..n {
+            for j in i + 1..n {
+                if matches!(tuple_rel(&rows[i], &rows[j], &keys).0, Rel::Less | Rel::Greater) {
+                    strict_pairs += 1;
+                }
+            }
+        }
+        ctx.count("strictly-ordered-pairs", strict_pairs);
+        ctx.count("pairs", (n * n.saturating_sub(1) / 2) as u64);
+
+        // input permutations
+        let mut inputs: Vec<Vec<MQ>> = vec![quads.clone()];
+        let mut rev = quads.clone();
+        rev.reverse();
+        inputs.push(rev);
+        inputs.push(crate::gen::permute(quads.clone(), &case.perm));
+
+        // node ids for the cross-permutation consistency check: distinct key tuples
+        let tuple_of = |r: &Vec<Option<MT>>| -> String { keys.iter().map(|(c, _)| show_v(&r[*c])).collect::<Vec<_>>().join("|") };
+        let ids: BTreeMap<String, usize> = rows.iter().map(tuple_of).collect::<BTreeSet<_>>().into_iter().enumerate().map(|(i, t)| (t, i)).collect();
+        let m = ids.len();
+        let mut reach = vec![vec![false; m]; m];
+        let mut rep: Vec<Option<usize>> = vec![None; m];
+        for (i, r) in rows.iter().enumerate() {
+            rep[ids[&tuple_of(r)]].get_or_insert(i);
+        }
+
+        for (pi, input) in inputs.iter().enumerate() {
+            let ds: VecSpog = match d_from::<VecSpog>(input) {
+                Ok(d) => d,
+                Err(e) => {
+                    ctx.fail("order/harness-collect", e);
+                    return;
+                }
+            };
+            let out = match run_query(&ds, &query) {
+                Outcome::Rows { vars, rows } => (vars, rows),
+                Outcome::Panic(p) => {
+                    let sig = global_signature(&rows, &keys, format!("order/panic/{}", panic_site(&p)));
+                    ctx.fail(sig, format!("panic while evaluating (input permutation {pi}): {p}\n{query}"));
+                    return;
+                }
+                other => {
+                    ctx.fail("order/query-failed", format!("{other:?}\n{query}"));
+                    return;
+                }
+            };
+            let (vars, orows) = out;
+            let k = case.ncols();
+            let mut exp_vars = vec!["r".to_string()];
+            exp_vars.extend((0..k).map(|c| format!("v{c}")));
+            if vars != exp_vars {
+                ctx.fail("order/variables", format!("variables {vars:?}, expected {exp_vars:?}"));
+                return;
+            }
+            // permutation check
+            let mut seen = vec![false; n];
+            let mut seq: Vec<usize> = vec![];
+            for o in &orows {
+                let idx = match &o[0] {
+                    Some(MT::Iri(i)) => i.strip_prefix(&format!("{NS}r")).and_then(|s| s.parse::<usize>().ok()),
+                    _ => None,
+                };
+                let Some(idx) = idx.filter(|i| *i < n && !seen[*i]) else {
+                    ctx.fail("order/not-a-permutation", format!("unexpected or repeated row {:?}\n{query}", o.iter().map(show_v).collect::<Vec<_>>()));
+                    return;
+                };
+                seen[idx] = true;
+                for c in 0..k {
+                    if !same_term(&o[c + 1], &rows[idx][c]) {
+                        ctx.fail("order/not-a-permutation", format!("row r{idx} column {c}: got {}, stored {}", show_v(&o[c + 1]), show_v(&rows[idx][c])));
+                        return;
+                    }
+                }
+                seq.push(idx);
+            }
+            if seq.len() != n {
+                ctx.fail("order/not-a-permutation", format!("{} rows returned, {n} expected\n{query}", seq.len()));
+                return;
+            }
+            // pairwise order
+            'outer: for x in 0..n {
+                for y in x + 1..n {
+                    let (a, b) = (&rows[seq[x]], &rows[seq[y]]);
+                    let (r, ki) = tuple_rel(a, b, &keys);
+                    if r == Rel::Greater {
+                        let (col, desc) = keys[ki];
+                        let sig = pair_signature(a, b, &rows, &keys, ki);
+                        ctx.fail(
+                            sig,
+                            format!(
+                                "input permutation {pi}: key #{ki} ({}?v{col}): {} is output before {} although the reference orders them the other way\nquery: {query}\noutput order: {}",
+                                if desc { "DESC " } else { "ASC " },
+                                show_v(&a[col]),
+                                show_v(&b[col]),
+                                seq.iter().map(|i| format!("[{}]", rows[*i].iter().map(show_v).collect::<Vec<_>>().join(" | "))).collect::<Vec<_>>().join(" ")
+                            ),
+                        );
+                        break 'outer;
+                    }
+                }
+            }
+            if ctx.failed() {
+                return;
+            }
+            for x in 0..n {
+                for y in x + 1..n {
+                    let (ia, ib) = (ids[&tuple_of(&rows[seq[x]])], ids[&tuple_of(&rows[seq[y]])]);
+                    if ia != ib {
+                        reach[ia][ib] = true;
+                    }
+                }
+            }
+        }
+        // transitive closure; a total preorder cannot put strictly ordered tuples in one cycle
+        for kk in 0..m {
+            for i in 0..m {
+                if reach[i][kk] {
+                    for j in 0..m {
+                        if reach[kk][j] {
+                            reach[i][j] = true;
+                        }
+                    }
+                }
+            }
+        }
+        for i in 0..m {
+            for j in i + 1..m {
+                if reach[i][j] && reach[j][i] {
+                    let (a, b) = (&rows[rep[i].unwrap()], &rows[rep[j].unwrap()]);
+                    let (r, ki) = tuple_rel(a, b, &keys);
+                    if matches!(r, Rel::Less | Rel::Greater) {
+                        let _ = ki;
+                        let sig = global_signature(&rows, &keys, "order/not-a-preorder".to_string());
+                        ctx.fail(
+                            sig,
+                            format!(
+                                "across input permutations the outputs place [{}] and [{}] in one 'appears before' cycle although the reference orders them strictly: no total preorder explains the outputs\nquery: {query}",
+                                a.iter().map(show_v).collect::<Vec<_>>().join(" | "),
+                                b.iter().map(show_v).collect::<Vec<_>>().join(" | ")
+                            ),
+                        );
+                        return;
+                    }
+                }
+            }
+        }
+    }
+}
+
+pub fn main(opts: &Opts) -> i32 {
+    drive::<C14>(opts)
 }
 pub fn worker(_args: &[String]) -> i32 {
     2
